@@ -776,3 +776,32 @@ Proof. vm_compute. reflexivity. Qed.
 Example C01_text_run_reaches_run : run_text oracle_trivial [] "1 + 2" = "OK:N4008000000000000;ENV:;OUT:"%string.
 Proof. vm_compute. reflexivity. Qed.
 End PrattFuelTotal.
+
+(* (c) the statement loop's `unreachable!()` arm and the "no inner pair" arm are not reachable on parsed texts:
+       every `statement` pair of every accepted text is one of the three modelled forms, so a TGluePanic
+       statement can only be a Panic of Pratt.pratt_impl on that statement's token stream *)
+Require Blots.proofs.PrattFuelAllShape.
+Theorem C01_text_statement_arms_unreachable : forall fuel text s' cf t,
+  Blots.Peg.parse Blots.gen.Grammar.blots_grammar fuel Blots.gen.Grammar.PG_input text = Blots.Peg.Ok s' ->
+  In t (rev (Blots.Peg.out s')) -> Blots.PegToItems.is_rule Blots.gen.Grammar.PG_statement t = true ->
+  exists first, In first (Blots.PegToItems.tkids t) /\
+    (Blots.TextRun.text_stmt_of text cf t
+       = Some (Blots.TextRun.glue_stmt SExpr
+                 (Blots.Pratt.pratt_impl (map (Blots.PegToItems.conv text cf) (Blots.PegToItems.tkids first))))
+     \/ Blots.TextRun.text_stmt_of text cf t
+       = Some (Blots.TextRun.glue_stmt SOut
+                 (Blots.Pratt.pratt_impl (map (Blots.PegToItems.conv text cf) (Blots.PegToItems.tkids first))))
+     \/ Blots.TextRun.text_stmt_of text cf t = Some (Blots.TextRun.TStmt SComment)).
+Proof. exact Blots.proofs.PrattFuelAllShape.text_stmt_of_parsed_shape. Qed.
+Check C01_text_statement_arms_unreachable : forall fuel text s' cf t,
+  Blots.Peg.parse Blots.gen.Grammar.blots_grammar fuel Blots.gen.Grammar.PG_input text = Blots.Peg.Ok s' ->
+  In t (rev (Blots.Peg.out s')) -> Blots.PegToItems.is_rule Blots.gen.Grammar.PG_statement t = true ->
+  exists first, In first (Blots.PegToItems.tkids t) /\
+    (Blots.TextRun.text_stmt_of text cf t
+       = Some (Blots.TextRun.glue_stmt SExpr
+                 (Blots.Pratt.pratt_impl (map (Blots.PegToItems.conv text cf) (Blots.PegToItems.tkids first))))
+     \/ Blots.TextRun.text_stmt_of text cf t
+       = Some (Blots.TextRun.glue_stmt SOut
+                 (Blots.Pratt.pratt_impl (map (Blots.PegToItems.conv text cf) (Blots.PegToItems.tkids first))))
+     \/ Blots.TextRun.text_stmt_of text cf t = Some (Blots.TextRun.TStmt SComment)).
+Print Assumptions C01_text_statement_arms_unreachable.
